@@ -39,7 +39,7 @@ Fixpoint join_with (c : Z) (l : list path) : path :=
   | s :: r => s ++ c :: join_with c r
   end.
 
-Definition is_rooted (p : path) : bool := match p with 47 :: _ => true | _ => false end.
+Definition is_rooted (p : path) : bool := match p with c :: _ => c =? SL | [] => false end.
 
 (* one path element pushed on the (reversed) stack of kept elements *)
 Definition push (rooted : bool) (stack : list path) (s : path) : list path :=
@@ -158,12 +158,14 @@ Definition neutralise (relDir0 : path) : path :=
 
 Definition index_name : path := [105; 110; 100; 101; 120].
 (* (relDir, baseName) *)
+(* the absolute path whose position relative to outbase decides the output path *)
+Definition effective_abs (outbase absPath0 : path) (avoidIndex : bool) (custom : path) : path :=
+  match custom with
+  | _ :: _ => if is_rooted custom then custom else fs_join outbase custom
+  | [] => if avoidIndex && path_eqb (strip_ext (fs_base absPath0)) index_name then fs_dir absPath0 else absPath0
+  end.
 Definition path_relative_to_outbase (outbase absPath0 : path) (avoidIndex : bool) (custom : path) : path * path :=
-  let absPath :=
-    match custom with
-    | _ :: _ => if is_rooted custom then custom else fs_join outbase custom
-    | [] => if avoidIndex && path_eqb (strip_ext (fs_base absPath0)) index_name then fs_dir absPath0 else absPath0
-    end in
+  let absPath := effective_abs outbase absPath0 avoidIndex custom in
   let relPath := rel outbase absPath in
   let relDir := neutralise (fs_dir relPath ++ [SL]) in
   let baseName := fs_base relPath in
@@ -256,3 +258,39 @@ Definition entry_rel_path (tmpl : list tpart) (outbase entry custom hash ext : p
   render (tmpl ++ [(ext, None)]) dir name hash (match ext with 46 :: e => e | e => e end).
 Definition entry_out_path (outdir : path) (tmpl : list tpart) (outbase entry custom hash ext : path) : path :=
   fs_join outdir (entry_rel_path tmpl outbase entry custom hash ext).
+
+(* ---- explicit output paths of entry points ({in, out}) ----
+   bundler addEntryPoints: an explicit absolute output path is taken relative
+   to the output directory; a relative one is used as it is (PathRelativeToOutbase
+   joins it onto outbase); neither loses an extension *)
+Definition explicit_custom (outdir out : path) : path :=
+  if is_rooted out then rel outdir out else out.
+
+(* ---- assets (file/copy loader, not entry points): bundler.go, "AdditionalFiles" ---- *)
+(* logger.PlatformIndependentPathDirBaseExt, the extension part, for a cleaned
+   Unix path: from the last '.' of the last element; ".module.css" as a whole *)
+Definition ext_css : path := [46; 99; 115; 115].
+Definition ext_module_css : path := [46; 109; 111; 100; 117; 108; 101; 46; 99; 115; 115].
+Definition pi_ext (p : path) : path :=
+  let b := match last_slash_split p with Some (_, b) => b | None => p end in
+  match last_dot_suffix b with
+  | None => []
+  | Some e => if path_eqb e ext_css && has_suffix ext_module_css b then ext_module_css else e
+  end.
+Definition drop_dot (e : path) : path := match e with 46 :: r => r | _ => e end.
+Definition default_asset_template : list tpart := [([46; SL], Some PName); ([45], Some PHash)].   (* "./[name]-[hash]" *)
+Definition asset_template (t : path) : list tpart :=
+  match parse_template t with [] => default_asset_template | l => l end.
+Definition asset_rel_path (tmpl : list tpart) (outbase asset hash : path) : path :=
+  let '(dir, name) := path_relative_to_outbase outbase asset false [] in
+  let ext := pi_ext asset in
+  render tmpl dir name hash (drop_dot ext) ++ ext.
+Definition asset_out_path (outdir : path) (tmpl : list tpart) (outbase asset hash : path) : path :=
+  fs_join outdir (asset_rel_path tmpl outbase asset hash).
+
+(* ---- shared chunks (linker computeChunks, the non-entry case) ---- *)
+Definition chunk_name : path := [99; 104; 117; 110; 107].
+Definition chunk_rel_path (tmpl : list tpart) (hash ext : path) : path :=
+  render (tmpl ++ [(ext, None)]) [SL] chunk_name hash (drop_dot ext).
+Definition chunk_out_path (outdir : path) (tmpl : list tpart) (hash ext : path) : path :=
+  fs_join outdir (chunk_rel_path tmpl hash ext).
